@@ -240,6 +240,45 @@ func c07Reject(run *ev.Run, sp *layerSpec, seed int64, cs ev.Case) {
 	if sp.Name != "Message" {
 		return
 	}
+	// both checksums wrong at once, with the two errors cancelling modulo 256, and byte transpositions across the two blocks
+	for k := 0; k < 40; k++ {
+		enc, _, _ := sp.Gen(r)
+		for d := 1; d < 256; d += 1 + k%3 {
+			variants := [][]byte{}
+			a := append([]byte(nil), enc...)
+			a[2] += byte(d)
+			a[len(a)-1] -= byte(d)
+			variants = append(variants, a)
+			b2 := append([]byte(nil), enc...)
+			b2[1] += byte(d) // a byte under checksum 1 ...
+			b2[5] -= byte(d) // ... and one under checksum 2
+			variants = append(variants, b2)
+			c2 := append([]byte(nil), enc...)
+			c2[0] += byte(d)
+			c2[len(c2)-1] -= byte(d)
+			variants = append(variants, c2)
+			for vi, in := range variants {
+				run.Eval(1)
+				var m ipmi.Message
+				err := m.DecodeFromBytes(in, gopacket.NilDecodeFeedback)
+				run.Nontrivial(fmt.Sprintf("Message|compensating|%d|%d", vi, d%16))
+				if err == nil {
+					run.Violation("C07:Message:compensating-checksum-errors-accepted", fmt.Sprintf("message %x (derived from %x by two changes that cancel modulo 256) decoded without error", in, enc), cs, nil)
+					return
+				}
+			}
+		}
+		if len(enc) > 4 && enc[2] != enc[3] {
+			in := append([]byte(nil), enc...)
+			in[2], in[3] = in[3], in[2]
+			run.Eval(1)
+			var m ipmi.Message
+			if err := m.DecodeFromBytes(in, gopacket.NilDecodeFeedback); err == nil {
+				run.Violation("C07:Message:compensating-checksum-errors-accepted", fmt.Sprintf("message %x with checksum 1 and the following byte transposed decoded without error", in), cs, nil)
+				return
+			}
+		}
+	}
 	// every wrong value of each checksum
 	for k := 0; k < 8; k++ {
 		enc, _, _ := sp.Gen(r)
@@ -427,8 +466,12 @@ func c07API(run *ev.Run, seed int64, count int, cs ev.Case) {
 		{"DCMIOptionalPlatformAttrsRsp", func() (any, error) { return dc.GetDCMICapabilitiesInfoOptionalPlatformAttrs(ctx) }},
 		{"DCMIManageabilityAccessAttrsRsp", func() (any, error) { return dc.GetDCMICapabilitiesInfoManageabilityAccessAttrs(ctx) }},
 		{"DCMIEnhancedPowerAttrsRsp", func() (any, error) { return dc.GetDCMICapabilitiesInfoEnhancedSystemPowerStatisticsAttrs(ctx) }},
-		{"GetPowerReadingRsp", func() (any, error) { return dc.GetPowerReading(ctx, &dcmi.GetPowerReadingReq{Mode: dcmi.SystemPowerStatisticsModeNormal}) }},
-		{"GetDCMISensorInfoRsp", func() (any, error) { return dc.GetDCMISensorInfo(ctx, &dcmi.GetDCMISensorInfoReq{Type: ipmi.SensorTypeTemperature, Entity: 0x40}) }},
+		{"GetPowerReadingRsp", func() (any, error) {
+			return dc.GetPowerReading(ctx, &dcmi.GetPowerReadingReq{Mode: dcmi.SystemPowerStatisticsModeNormal})
+		}},
+		{"GetDCMISensorInfoRsp", func() (any, error) {
+			return dc.GetDCMISensorInfo(ctx, &dcmi.GetDCMISensorInfoReq{Type: ipmi.SensorTypeTemperature, Entity: 0x40})
+		}},
 	}
 	for i := 0; i < count; i++ {
 		for _, a := range apis {
